@@ -11,6 +11,7 @@ The result is a *new* AST (the module's own tree is untouched); nodes keep their
 from __future__ import annotations
 
 import ast
+import os
 import copy
 import itertools
 from typing import Dict, List, Optional, Sequence, Set, Tuple
@@ -47,6 +48,18 @@ def clone(node):
         if hasattr(node, a):
             setattr(new, a, getattr(node, a))
     return new
+
+
+def number_nodes(root) -> None:
+    """execution-order-compatible numbering (source pre-order) of every node: inlined code keeps the line numbers of the helper it came from,
+    so rules compare positions with repo.ordk(node), never with lineno"""
+    k = 0
+    stack = [root]
+    while stack:
+        n = stack.pop()
+        n._ord = k
+        k += 1
+        stack.extend(reversed(list(ast.iter_child_nodes(n))))
 
 
 def set_parents(root, parent=None):
@@ -180,7 +193,7 @@ def _rewrite_returns(stmts: Sequence[ast.stmt], target: Optional[ast.AST]) -> Li
             if target is not None:
                 val = st.value if st.value is not None else ast.Constant(value=None)
                 out.append(ast.copy_location(ast.Assign(targets=[clone(target)], value=val, lineno=st.lineno), st))
-            elif st.value is not None and not isinstance(st.value, ast.Constant):
+            elif st.value is not None and not isinstance(st.value, (ast.Constant, ast.Name)):
                 out.append(ast.copy_location(ast.Expr(value=st.value), st))
             return out
         if isinstance(st, ast.If) and any(isinstance(n, ast.Return) for n in _walk_no_nested(st)):
@@ -196,6 +209,74 @@ def _rewrite_returns(stmts: Sequence[ast.stmt], target: Optional[ast.AST]) -> Li
             return out
         out.append(st)
     return out
+
+
+def norm_name(e) -> str:
+    return e.id if isinstance(e, ast.Name) else (e.attr if isinstance(e, ast.Attribute) else "")
+
+
+def _is_const(e, val) -> bool:
+    return isinstance(e, ast.Constant) and e.value is val
+
+
+def _cond_expr(test: ast.AST, a: ast.AST, b: ast.AST) -> ast.AST:
+    """`a if test else b`, written with and/or/not when one arm is a boolean constant (so that guard formulas see the structure)"""
+    if _is_const(a, True) and _is_const(b, False):
+        return test
+    if _is_const(a, False) and _is_const(b, True):
+        return ast.UnaryOp(op=ast.Not(), operand=test)
+    if _is_const(a, False):
+        return ast.BoolOp(op=ast.And(), values=[ast.UnaryOp(op=ast.Not(), operand=test), b])
+    if _is_const(a, True):
+        return ast.BoolOp(op=ast.Or(), values=[test, b])
+    if _is_const(b, False):
+        return ast.BoolOp(op=ast.And(), values=[test, a])
+    if _is_const(b, True):
+        return ast.BoolOp(op=ast.Or(), values=[ast.UnaryOp(op=ast.Not(), operand=test), a])
+    return ast.IfExp(test=test, body=a, orelse=b)
+
+
+def _body_as_expr(stmts: Sequence[ast.stmt]) -> Optional[ast.AST]:
+    """the value a statement list returns, as one expression, when it consists only of guard-style `if ...: return X` chains ending in a return
+    (no loops, no side-effecting statements); None otherwise"""
+    if not stmts:
+        return None
+    st = stmts[0]
+    if isinstance(st, ast.Return):
+        return st.value if st.value is not None else ast.Constant(value=None)
+    if isinstance(st, ast.If):
+        rest = list(stmts[1:])
+        a = _body_as_expr(list(st.body) + ([] if _ends_with_return(st.body) else rest))
+        b = _body_as_expr(list(st.orelse) + ([] if (st.orelse and _ends_with_return(st.orelse)) else rest))
+        if a is None or b is None:
+            return None
+        return _cond_expr(st.test, a, b)
+    if isinstance(st, ast.Pass) or (isinstance(st, ast.Expr) and isinstance(st.value, ast.Constant)):
+        return _body_as_expr(stmts[1:])
+    if isinstance(st, ast.Assign) and len(st.targets) == 1 and isinstance(st.targets[0], ast.Name) and _side_effect_free(st.value):
+        # a local computed once and only read afterwards: substitute it
+        nm = st.targets[0].id
+        rest = list(stmts[1:])
+        if any(isinstance(n, ast.Name) and n.id == nm and isinstance(n.ctx, ast.Store) for x in rest for n in ast.walk(x)):
+            return None
+        e = _body_as_expr(rest)
+        if e is None:
+            return None
+        return _Subst({nm: st.value}).visit(clone(e))
+    return None
+
+
+def _side_effect_free(e: ast.AST) -> bool:
+    for n in ast.walk(e):
+        if isinstance(n, (ast.Yield, ast.YieldFrom, ast.Await, ast.NamedExpr, ast.Lambda)):
+            return False
+        if isinstance(n, ast.Call):
+            f = n.func
+            nm = f.attr if isinstance(f, ast.Attribute) else (f.id if isinstance(f, ast.Name) else "")
+            if nm not in ("strip", "lstrip", "rstrip", "lower", "upper", "startswith", "endswith", "split", "get", "len", "str", "int", "bool", "tuple", "isinstance", "keys",
+                          "values", "items", "join", "format", "count", "find", "index", "replace"):
+                return False
+    return True
 
 
 def _ends_with_return(stmts: Sequence[ast.stmt]) -> bool:
@@ -285,6 +366,12 @@ class Canonicalizer:
                 set_parents(new, owner)
             self._module_constants(mod, new)
             set_parents(new, owner)
+            if self._desugar_comprehensions(new):
+                set_parents(new, owner)
+            for _ in range(20):
+                if not self._lift_conditionals(new):
+                    break
+                set_parents(new, owner)
             for _ in range(60):
                 if not self._copy_propagate(new):
                     break
@@ -294,6 +381,7 @@ class Canonicalizer:
             set_parents(new, owner)
         ast.fix_missing_locations(new)
         set_parents(new, owner)
+        number_nodes(new)
         new._canon_of = fn
         if top:
             self._active.discard(id(fn))
@@ -377,7 +465,7 @@ class Canonicalizer:
                 if not res:
                     continue
                 h, body, is_method = res
-                if _is_generator(h) or (len(body) == 1 and isinstance(body[0], ast.Return)):
+                if _is_generator(h) or (len(body) == 1 and isinstance(body[0], ast.Return)) or (len(body) > 1 and _body_as_expr(body) is not None):
                     continue
                 if not _tail_returns_only(body):
                     continue
@@ -400,12 +488,13 @@ class Canonicalizer:
             h, body, is_method = res
             if _is_generator(h):
                 continue
-            if len(body) == 1 and isinstance(body[0], ast.Return) and body[0].value is not None:
+            as_expr = body[0].value if (len(body) == 1 and isinstance(body[0], ast.Return)) else (_body_as_expr(body) if len(body) > 1 else None)
+            if as_expr is not None:
                 is_static = any(isinstance(d, ast.Name) and d.id == "staticmethod" for d in h.decorator_list)
                 bound = _bind(call, h, is_method and not is_static)
                 if bound is None:
                     continue
-                expr = body[0].value
+                expr = as_expr
                 uses = {}
                 for n in ast.walk(expr):
                     if isinstance(n, ast.Name) and n.id in bound:
@@ -433,6 +522,8 @@ class Canonicalizer:
                 call, gen = st.value.value, True
             elif isinstance(st, ast.Assign) and len(st.targets) == 1 and isinstance(st.value, ast.Call) and isinstance(st.targets[0], (ast.Name, ast.Tuple)):
                 call, target = st.value, st.targets[0]
+            elif isinstance(st, ast.AnnAssign) and isinstance(st.value, ast.Call) and isinstance(st.target, ast.Name):
+                call, target = st.value, st.target
             elif isinstance(st, ast.Return) and isinstance(st.value, ast.Call) and st is new.body[-1]:
                 call = st.value
                 target = "RETURN"
@@ -444,7 +535,7 @@ class Canonicalizer:
             h, body, is_method = res
             if _is_generator(h) != gen:
                 continue
-            if len(body) == 1 and isinstance(body[0], ast.Return) and not gen:
+            if not gen and ((len(body) == 1 and isinstance(body[0], ast.Return)) or (len(body) > 1 and _body_as_expr(body) is not None)):
                 continue  # expression form handled above (or not inlinable)
             if not _tail_returns_only(body):
                 continue
@@ -459,11 +550,17 @@ class Canonicalizer:
             pre: List[ast.stmt] = []
             subst: Dict[str, ast.AST] = {}
             rename: Dict[str, str] = {}
+            all_rets = [n for x in body for n in _walk_no_nested(x) if isinstance(n, ast.Return)]
             for p, a in bound.items():
                 if p in ("self", "cls"):
                     subst[p] = a
                 elif _simple(a) and p not in assigned:
                     subst[p] = a
+                elif isinstance(a, ast.Name) and isinstance(target, ast.Name) and target.id == a.id and all_rets \
+                        and all(isinstance(r_.value, ast.Name) and r_.value.id == p for r_ in all_rets) \
+                        and sum(1 for a2 in bound.values() for n in ast.walk(a2) if isinstance(n, ast.Name) and n.id == a.id) == 1:
+                    # x = helper(x): the helper updates its copy of x and returns it -- update x itself
+                    rename[p] = a.id
                 else:
                     nm = f"_inl{k}_{p}"
                     rename[p] = nm
@@ -477,6 +574,22 @@ class Canonicalizer:
             free_clash = {n.id for x in body for n in ast.walk(x) if isinstance(n, ast.Name) and n.id not in bound and n.id not in assigned} & _assigned_names(new)
             if free_clash:
                 continue
+            # a helper that builds its result in a local and returns it at the end: build it in the caller's target directly
+            rets = [n for x in body for n in _walk_no_nested(x) if isinstance(n, ast.Return)]
+            if isinstance(target, ast.Name) and len(rets) == 1 and rets[0] is body[-1] and isinstance(rets[0].value, ast.Name) \
+                    and rets[0].value.id in assigned and rets[0].value.id not in bound \
+                    and not any(isinstance(n, ast.Name) and n.id == target.id for a in list(call.args) + [k.value for k in call.keywords] for n in ast.walk(a)) \
+                    and target.id not in assigned and not any(isinstance(n, ast.Name) and n.id == target.id for x in body for n in ast.walk(x)):
+                rename[rets[0].value.id] = target.id
+            elif isinstance(target, ast.Tuple) and len(rets) == 1 and rets[0] is body[-1] and isinstance(rets[0].value, ast.Tuple) \
+                    and len(rets[0].value.elts) == len(target.elts) and all(isinstance(e, ast.Name) for e in list(target.elts) + list(rets[0].value.elts)):
+                tn = [e.id for e in target.elts]
+                rn = [e.id for e in rets[0].value.elts]
+                argnames = {n.id for a in list(call.args) + [k.value for k in call.keywords] for n in ast.walk(a) if isinstance(n, ast.Name)}
+                bodynames = {n.id for x in body for n in ast.walk(x) if isinstance(n, ast.Name)}
+                if len(set(rn)) == len(rn) and all(r in assigned and r not in bound for r in rn) and not (set(tn) & argnames) and not ((set(tn) - set(rn)) & bodynames):
+                    for r, t in zip(rn, tn):
+                        rename[r] = t
             nb = [clone(x) for x in body]
             nb = [_Rename(rename).visit(x) for x in nb]
             nb = [_Subst(subst).visit(x) for x in nb]
@@ -486,6 +599,10 @@ class Canonicalizer:
             else:
                 tgt = None if (target is None or gen) else target
                 new_body = pre + _rewrite_returns(nb, tgt)
+                new_body = [x for x in new_body if not (isinstance(x, ast.Assign) and len(x.targets) == 1 and isinstance(x.targets[0], ast.Name)
+                                                        and isinstance(x.value, ast.Name) and x.value.id == x.targets[0].id)]
+                new_body = [x for x in new_body if not (isinstance(x, ast.Assign) and len(x.targets) == 1 and isinstance(x.targets[0], ast.Tuple) and isinstance(x.value, ast.Tuple)
+                                                        and [getattr(e, "id", 0) for e in x.targets[0].elts] == [getattr(e, "id", 1) for e in x.value.elts])]
             if not new_body:
                 new_body = [ast.copy_location(ast.Pass(), st)]
             self._replace_stmt(new, st, new_body)
@@ -516,6 +633,95 @@ class Canonicalizer:
                         if x is old:
                             val[i:i + 1] = new_list
                             return
+
+    # ------------------------------------------------------------------ conditional values / EAFP lookups -> if statements
+    def _lift_conditionals(self, new: ast.FunctionDef) -> bool:
+        """`yield A if c else B` -> `if c: yield A else: yield B` (same for return);
+        `try: x = d[k] except KeyError: <body>` -> `if k in d: x = d[k] else: <body>` (dict-like lookups)"""
+        for st in [n for n in _walk_no_nested(new) if isinstance(n, ast.stmt)]:
+            if isinstance(st, ast.Expr) and isinstance(st.value, ast.Yield) and isinstance(st.value.value, ast.IfExp):
+                ie = st.value.value
+                a = ast.copy_location(ast.Expr(value=ast.copy_location(ast.Yield(value=ie.body), st)), st)
+                b = ast.copy_location(ast.Expr(value=ast.copy_location(ast.Yield(value=ie.orelse), st)), st)
+                self._replace_stmt(new, st, [ast.copy_location(ast.If(test=ie.test, body=[a], orelse=[b]), st)])
+                return True
+            if isinstance(st, ast.Return) and isinstance(st.value, ast.IfExp):
+                ie = st.value
+                a = ast.copy_location(ast.Return(value=ie.body), st)
+                b = ast.copy_location(ast.Return(value=ie.orelse), st)
+                self._replace_stmt(new, st, [ast.copy_location(ast.If(test=ie.test, body=[a], orelse=[b]), st)])
+                return True
+            if isinstance(st, ast.Try) and len(st.body) == 1 and len(st.handlers) == 1 and not st.orelse and not st.finalbody \
+                    and st.handlers[0].type is not None and norm_name(st.handlers[0].type) == "KeyError" and st.handlers[0].name is None \
+                    and isinstance(st.body[0], ast.Assign) and len(st.body[0].targets) == 1 and isinstance(st.body[0].value, ast.Subscript) \
+                    and _simple(st.body[0].value.value) and _simple(st.body[0].value.slice):
+                sub = st.body[0].value
+                test = ast.Compare(left=clone(sub.slice), ops=[ast.In()], comparators=[clone(sub.value)])
+                ast.copy_location(test, st)
+                self._replace_stmt(new, st, [ast.copy_location(ast.If(test=test, body=list(st.body), orelse=list(st.handlers[0].body)), st)])
+                return True
+        return False
+
+    # ------------------------------------------------------------------ comprehensions at statement level -> loops
+    def _desugar_comprehensions(self, new: ast.FunctionDef) -> bool:
+        """`x = [e for t in it if c]` / `return [...]` (one generator; list, set or dict) becomes the accumulation loop, so that rules read one form"""
+        if os.environ.get("VF_NO_DESUGAR"):
+            return False
+        changed = False
+        for st in [n for n in _walk_no_nested(new) if isinstance(n, (ast.Assign, ast.AnnAssign, ast.Return))]:
+            v = st.value
+            if not isinstance(v, (ast.ListComp, ast.SetComp, ast.DictComp)) or len(v.generators) != 1 or v.generators[0].is_async:
+                continue
+            if isinstance(st, ast.Assign) and not (len(st.targets) == 1 and isinstance(st.targets[0], ast.Name)):
+                continue
+            if isinstance(st, ast.AnnAssign) and not isinstance(st.target, ast.Name):
+                continue
+            g = v.generators[0]
+            # the loop variable must not clash with a name the function uses outside the comprehension
+            tnames = {n.id for n in ast.walk(g.target) if isinstance(n, ast.Name)}
+            outside = {n.id for n in _walk_no_nested(new) if isinstance(n, ast.Name) and not any(n is y for y in ast.walk(v))}
+            outside |= {a.arg for a in new.args.args + new.args.kwonlyargs}
+            if tnames & outside:
+                continue
+            if isinstance(st, ast.Return):
+                acc = f"_acc{next(_counter)}"
+            else:
+                acc = (st.targets[0] if isinstance(st, ast.Assign) else st.target).id
+                if any(isinstance(n, ast.Name) and n.id == acc for n in ast.walk(v)):
+                    continue
+            def nm(ctx):
+                return ast.Name(id=acc, ctx=ctx)
+            if isinstance(v, ast.ListComp):
+                init = ast.List(elts=[], ctx=ast.Load())
+                step = ast.Expr(value=ast.Call(func=ast.Attribute(value=nm(ast.Load()), attr="append", ctx=ast.Load()), args=[v.elt], keywords=[]))
+            elif isinstance(v, ast.SetComp):
+                init = ast.Call(func=ast.Name(id="set", ctx=ast.Load()), args=[], keywords=[])
+                step = ast.Expr(value=ast.Call(func=ast.Attribute(value=nm(ast.Load()), attr="add", ctx=ast.Load()), args=[v.elt], keywords=[]))
+            else:
+                init = ast.Dict(keys=[], values=[])
+                step = ast.Assign(targets=[ast.Subscript(value=nm(ast.Load()), slice=v.key, ctx=ast.Store())], value=v.value, lineno=st.lineno)
+            body = [step]
+            for cond in reversed(g.ifs):
+                body = [ast.If(test=cond, body=body, orelse=[])]
+            loop = ast.For(target=g.target, iter=g.iter, body=body, orelse=[], lineno=st.lineno)
+            for n in ast.walk(g.target):
+                if isinstance(n, (ast.Name, ast.Tuple, ast.List, ast.Starred)):
+                    n.ctx = ast.Store()
+            if isinstance(st, ast.AnnAssign):
+                first = ast.AnnAssign(target=nm(ast.Store()), annotation=st.annotation, value=init, simple=1, lineno=st.lineno)
+            else:
+                first = ast.Assign(targets=[nm(ast.Store())], value=init, lineno=st.lineno)
+            seq = [first, loop]
+            if isinstance(st, ast.Return):
+                seq.append(ast.Return(value=nm(ast.Load()), lineno=st.lineno))
+            for x in seq:
+                ast.copy_location(x, st)
+                for y in ast.walk(x):
+                    if not hasattr(y, "lineno") and isinstance(y, (ast.expr, ast.stmt)):
+                        ast.copy_location(y, st)
+            self._replace_stmt(new, st, seq)
+            changed = True
+        return changed
 
     # ------------------------------------------------------------------ module constants
     def _module_constants(self, mod, new: ast.FunctionDef) -> None:
@@ -558,7 +764,23 @@ class Canonicalizer:
             if isinstance(v, ast.Attribute) and isinstance(v.value, ast.Name) and v.value.id == "Op":
                 return True
             return False
-        mapping = {n: v for n, v in vals.items() if counts[n] == 1 and n not in dirty and n not in local and literal(v) and n not in self.protected}
+
+        def table(v, top=True) -> bool:
+            """a constant table: dict/list/tuple literal over literals, references to module-level functions / imported names and lambdas"""
+            if literal(v):
+                return not top
+            if isinstance(v, ast.Dict):
+                return all(k is not None and literal(k) for k in v.keys) and all(table(x, False) for x in v.values)
+            if isinstance(v, (ast.List, ast.Tuple)):
+                return all(table(x, False) for x in v.elts)
+            if isinstance(v, ast.Name):
+                return v.id not in local and v.id not in dirty and (v.id in mod.defs or v.id in mod.imports or v.id in vals)
+            if isinstance(v, ast.Lambda):
+                return not any(isinstance(n, ast.Name) and n.id in local for n in ast.walk(v.body))
+            if isinstance(v, ast.Attribute):
+                return table(v.value, False)
+            return False
+        mapping = {n: v for n, v in vals.items() if counts[n] == 1 and n not in dirty and n not in local and (literal(v) or (isinstance(v, ast.Dict) and table(v))) and n not in self.protected}
         if mapping:
             used = {n.id for n in _walk_no_nested(new) if isinstance(n, ast.Name) and isinstance(n.ctx, ast.Load)}
             mapping = {k: v for k, v in mapping.items() if k in used}
